@@ -91,6 +91,7 @@ func New[T any](
 	tree.node.handlers = map[string]T{
 		http.MethodOptions: tree.optionsBuilder(tree.node),
 	}
+	tree.buildMethods(0) // 保证 OPTIONS * 在添加路由项之前也有正确的 Allow 报头
 
 	if lock {
 		tree.locker = &sync.RWMutex{}
